@@ -284,7 +284,7 @@ func (p *prop) Generate(rng *core.Rand, tier string, emit func(string)) {
 	for c := 0; c < n/8; c++ {
 		emit(genPP(rng))
 	}
-	for _, l := range []string{"pp . . - 746370 - - .", "pp . . - 746370 312e322e332e343a35 - 312e322e332e34:312e322e332e34:-:-:0000", "pp . . 2d 746370 - - .", "pp . . - 746370 - zz .", "pp . . - 746370 - -"} {
+	for _, l := range []string{"pp . . - 746370 - - . j", "pp . . - 746370 312e322e332e343a35 - 312e322e332e34:312e322e332e34:-:-:0000 c", "pp . . 2d 746370 - - . j", "pp . . - 746370 - zz . j", "pp . . - 746370 - - .", "pp . . - 746370 - - . x"} {
 		emit(l)
 	}
 	// a malformed stream: both sides must answer bad-op
